@@ -93,6 +93,7 @@ func rulesC15(c *Ctx) {
 
 	rulesC15Round2(c)
 	c15Round3(c)
+	c15RewardOrder(c)
 
 	// ---- (a) price shape
 	if fn := c.needFn("C15.price", pkStakingAPI+".(*SharePool).sharesForStake"); fn != nil {
